@@ -17,7 +17,8 @@ Definition denotes (t : str) (n : Z) : Prop := all_digits t /\ digits_val 0 t = 
 
 Record wf_member (m : member) : Prop := {
   w_name_len : 1 <= List.length (m_name m) /\ List.length (m_name m) + (if m_slash m then 1 else 0) <= 16;
-  w_name_trim : no_lead (m_name m) /\ no_trail (m_name m);
+  (* the name as written (with its '/' terminator, if any) does not end in a space: leading blanks are fine *)
+  w_name_trim : trim_right_sp (m_name m ++ (if m_slash m then [slash] else [])) = m_name m ++ (if m_slash m then [slash] else []);
   w_name_noslash : has_suffix [slash] (m_name m) = false;
   w_ts : all_digits (m_ts m) /\ List.length (m_ts m) <= 12;
   w_uid : all_digits (m_uid m) /\ List.length (m_uid m) <= 6;
@@ -75,6 +76,15 @@ Proof.
     destruct (rev t) as [|c r]; [exact I|]. inversion R; subst. now apply digit_not_space.
 Qed.
 
+Lemma drop_sp_repeat n y : drop_sp (repeat sp n ++ y) = drop_sp y.
+Proof. induction n as [|n IH]; [reflexivity|]. cbn [repeat app drop_sp]. destruct (ceq_spec sp sp); [exact IH|congruence]. Qed.
+Lemma rev_repeat {A} (a : A) n : rev (repeat a n) = repeat a n.
+Proof.
+  induction n as [|n IH]; [reflexivity|]. cbn [repeat rev]. rewrite IH. clear IH.
+  induction n as [|n IH]; [reflexivity|]. cbn [repeat app]. now rewrite IH.
+Qed.
+Lemma trim_right_sp_pad w t : trim_right_sp t = t -> trim_right_sp (pad w t) = t.
+Proof. intros H. unfold pad, trim_right_sp in *. now rewrite rev_app_distr, rev_repeat, drop_sp_repeat. Qed.
 Lemma trim_space_pad w t : trim_space t = t -> trim_space (pad w t) = t.
 Proof.
   intros H. unfold pad, trim_space in *.
@@ -181,7 +191,7 @@ Qed.
 Lemma parse_header off m : wf_member m -> parse_entry off (header m) = Some (entry_of off m).
 Proof.
   intros W. pose proof (header_length m W) as HL.
-  destruct W as [N [NL NT] NS [T TL] [U UL] [G GL] [[ML MT] MLen] (S&SL&SV)].
+  destruct W as [N TN NS [T TL] [U UL] [G GL] [[ML MT] MLen] (S&SL&SV)].
   unfold parse_entry. rewrite HL. cbn [Nat.eqb negb].
   set (nm := m_name m ++ (if m_slash m then [slash] else [])).
   assert (Lnm : List.length nm <= 16) by (subst nm; rewrite app_length; destruct (m_slash m); cbn [List.length]; lia).
@@ -200,11 +210,8 @@ Proof.
   rewrite NS'.
   destruct (Z.ltb_spec (Z.of_nat (List.length (m_data m))) 0); [lia|].
   rewrite (trim_space_pad 8 (m_mode m)) by (now apply trim_space_id).
-  assert (TN : trim_space nm = nm).
-  { subst nm. destruct (m_slash m).
-    - apply trim_space_id; [apply no_lead_app; [destruct (m_name m); [cbn in N; lia|discriminate]|exact NL] | now apply no_trail_snoc].
-    - rewrite app_nil_r. now apply trim_space_id. }
-  rewrite (trim_space_pad 16 nm TN).
+  fold nm in TN.
+  rewrite (trim_right_sp_pad 16 nm TN).
   assert (NM : trim_suffix [slash] nm = m_name m).
   { subst nm. destruct (m_slash m).
     - apply trim_suffix_char_snoc.
